@@ -12,7 +12,7 @@ H = "harness/c05.py"
 TARGETS = {
     "arr-index": ["a", "$i"], "arr-dash": ["a", "-"], "obj-existing": ["b", "c"], "obj-new": ["b", "new"], "obj-digit-name": ["b", 1],
     "top-digit-name": [1], "root": [], "missing-parent": ["zz", "x"], "scalar-parent": ["b", "c", "x"], "nested-arr": ["b", 1, "$j"],
-    "arr-in-name": ["a", "x"], "arr-leading-zero": ["a", "01"],
+    "arr-in-name": ["a", "x"], "arr-leading-zero": ["a", "01"], "arr-index-str": ["a", "$is"],
 }
 SOURCES = {
     "arr-index": ["a", "$j"], "obj-member": ["b", "c"], "obj": ["b"], "arr": ["a"], "root": [], "missing": ["zz"], "digit-name": [1],
